@@ -534,4 +534,55 @@ theorem WF_fromCSC (npix nmodes : Nat) (indptr indices : List Nat) (data : List 
   exact hidx _ (List.of_mem_zip h2).1
 
 end
+section
+variable [AddCommMonoid K] [DecidableEq K]
+
+theorem extend_sparse_eq_add (n m : Nat) (ca : List (SCol K)) (b : Basis K) :
+    extend (.sparse n m ca) b = add (.sparse n m ca) b := by
+  unfold extend add
+  by_cases h : (Basis.sparse n m ca).npix ≠ b.npix
+  · simp [h]
+  · simp only [h, if_false]
+    cases b <;> rfl
+
+/-- in-place `extend`: the columns of `b` are glued to the right, the storage form of `a` is kept -/
+theorem extend_spec (a b : Basis K) (ha : WF a) (hb : WF b) (h : a.npix = b.npix) :
+    ∃ r, extend a b = some r ∧ WF r ∧ r.npix = a.npix ∧ r.nmodes = a.nmodes + b.nmodes ∧
+      r.isSparse = a.isSparse ∧
+      toDense r = List.zipWith (· ++ ·) (toDense a) (toDense b) := by
+  cases a with
+  | sparse n m ca =>
+    rw [extend_sparse_eq_add]
+    obtain ⟨r, h1, h2, h3, h4, h5, h6⟩ := add_spec (.sparse n m ca) b ha hb h
+    exact ⟨r, h1, h2, h3, h4, by simpa [Basis.isSparse] using h5, h6⟩
+  | dense n m ra =>
+    unfold extend
+    simp only [h, ne_eq, not_true_eq_false, if_false]
+    have hn : n = b.npix := h
+    have hW : WF (.dense n (m + b.nmodes) (List.zipWith (· ++ ·) ra (toDense b))) := by
+      refine ⟨by rw [List.length_zipWith, ha.1, toDense_length, ← hn, Nat.min_self], ?_⟩
+      intro r hr
+      rw [List.mem_iff_getElem] at hr
+      obtain ⟨i, hi, rfl⟩ := hr
+      simp at hi
+      have := (WF_toDense b).2 _ (List.getElem_mem hi.2)
+      simp [ha.2 _ (List.getElem_mem hi.1), this]
+    refine ⟨_, rfl, hW, hn, rfl, rfl, ?_⟩
+    rw [toDense_dense _ _ _ hW, toDense_dense n m ra ha]
+
+theorem append_spec (a : Basis K) (ha : WF a) (v : List K) (hv : v.length = a.npix) :
+    ∃ r, append a v = some r ∧ WF r ∧ r.npix = a.npix ∧ r.nmodes = a.nmodes + 1 ∧
+      r.isSparse = a.isSparse ∧
+      toDense r = List.zipWith (· ++ ·) (toDense a) (v.map fun x => [x]) := by
+  unfold append
+  simp only [hv, ne_eq, not_true_eq_false, if_false]
+  have hW : WF (.dense a.npix 1 (v.map fun x => [x])) := by
+    refine ⟨by simp [hv], ?_⟩
+    intro r hr; simp at hr; obtain ⟨x, _, rfl⟩ := hr; rfl
+  obtain ⟨r, h1, h2, h3, h4, h5, h6⟩ := extend_spec a _ ha hW rfl
+  refine ⟨r, h1, h2, h3, h4, h5, ?_⟩
+  rw [h6, toDense_dense _ _ _ hW]
+
+end
+
 end HcipyVerif.ModeBasis
